@@ -26,7 +26,7 @@ type c19Case struct {
 }
 
 var c19Alphabet = []string{"mgrTick", "enable2", "enable3", "disable2", "disableAll", "lag2:unknown", "lag2:low", "lag2:mid", "lag2:high",
-	"lag3:high", "lag3:low", "status2:enabled", "ghost", "h2Dies", "h2Starts", "fileTo2", "fileFrom1", "adv5"}
+	"lag3:high", "lag3:low", "status2:enabled", "ghost", "h2Dies", "h2Starts", "fileTo2", "fileFrom1", "adv5", "h2SettingsFail", "h2SettingsOK"}
 
 func c19Run(r *vt.Run, c c19Case) (canon string) {
 	r.Eval()
@@ -53,8 +53,12 @@ func c19Run(r *vt.Run, c c19Case) (canon string) {
 		for _, x := range []string{"h2", "h3"} {
 			w.Servers[x].Lag = &zero
 		}
+		// health records come from the real health loop body of each host's own mysync: the syncer
+		// classifies hosts by the lag and settings recorded there
 		mgr := h.Start("h1")
-		h.InjectHealth()
+		h.Start("h2")
+		h.Start("h3")
+		h.HealthAll()
 		h.Tick(mgr)
 		relaxedByMysync := map[string]bool{}
 		registered := func(x string) bool { return w.ZK.Exists(vns + "/optimization_nodes/" + x) }
@@ -122,7 +126,7 @@ func c19Run(r *vt.Run, c c19Case) (canon string) {
 			np := len(w.Panics)
 			switch {
 			case ev == "mgrTick":
-				h.InjectHealth()
+				h.HealthAll()
 				pending := w.ZK.Exists(vns + "/switch")
 				firstFreezeSeen = false
 				speedup = false
@@ -157,13 +161,15 @@ func c19Run(r *vt.Run, c c19Case) (canon string) {
 					for _, x := range w.ZK.Children(vns + "/optimization_nodes") {
 						if sv := w.Servers[x]; sv != nil && !sv.Up {
 							tag2 = "/another-registered-host-is-down"
+						} else if sv != nil && sv.FailOps != nil && tag2 == "/all-registered-hosts-up" {
+							tag2 = "/another-registered-host-refuses-the-settings"
 						}
 					}
 					for _, x := range []string{"h2", "h3"} {
 						s := w.Servers[x]
 						b := before[x]
-						if !b.reg || !s.Up {
-							continue
+						if !b.reg || !s.Up || s.FailOps != nil {
+							continue // cannot be restored while the server refuses the statements
 						}
 						if b.lag == nil || *b.lag < 60 {
 							if relaxed(x) {
@@ -200,6 +206,11 @@ func c19Run(r *vt.Run, c c19Case) (canon string) {
 			case ev == "h2Starts":
 				w.Servers["h2"].Start(w)
 				relaxedByMysync["h2"] = false
+			case ev == "h2SettingsFail":
+				// h2 refuses changes of the durability settings (error 1205) until h2SettingsOK
+				w.Servers["h2"].FailOps = map[string]uint16{"SET_FLUSH_LOG": 1205, "SET_SYNC_BINLOG": 1205}
+			case ev == "h2SettingsOK":
+				w.Servers["h2"].FailOps = nil
 			case ev == "fileTo2" || ev == "fileFrom1":
 				w.Advance(time.Second)
 				if !w.ZK.Exists(vns+"/switch") && h.MasterKey() == "h1" {
@@ -212,6 +223,10 @@ func c19Run(r *vt.Run, c c19Case) (canon string) {
 			case ev == "adv5":
 				w.Advance(5 * time.Second)
 				dyn()
+			}
+			if r.Replay != nil {
+				w.StmtLog = append(w.StmtLog, fmt.Sprintf("== after step %d (%s): registry=%v h2: flush=%d sync_binlog=%d lag=%s  h3: flush=%d sync_binlog=%d lag=%s", step, ev, w.ZK.Children(vns+"/optimization_nodes"),
+					w.Servers["h2"].FlushLog, w.Servers["h2"].SyncBinlog, lagStr(w.Servers["h2"].Lag), w.Servers["h3"].FlushLog, w.Servers["h3"].SyncBinlog, lagStr(w.Servers["h3"].Lag)))
 			}
 			if len(w.Panics) > np || len(w.Unknown) > 0 {
 				violate("0-engine", fmt.Sprintf("panics=%v at %s unknown=%v at step %d (%s)", w.Panics, h.PanicWhere(), w.Unknown, step, ev))
@@ -294,6 +309,11 @@ func checkC19(r *vt.Run) {
 		vBFS(r, fmt.Sprintf("optimising%d|", order), c19Alphabet, d, enabled, func(hist []string) string {
 			return runner(append(append([]string(nil), prefix...), hist...))
 		})
+		// h2 being optimised and h3 lagging and waiting for its turn
+		prefix2 := []string{"lag2:high", "enable2", "mgrTick", "lag3:high", "enable3"}
+		vBFS(r, fmt.Sprintf("queue%d|", order), c19Alphabet, d-1, enabled, func(hist []string) string {
+			return runner(append(append([]string(nil), prefix2...), hist...))
+		})
 	}
-	r.Bound("initial_states", "converged; h2 lagging, registered and relaxed by the syncer")
+	r.Bound("initial_states", "converged; h2 lagging, registered and relaxed by the syncer; additionally h3 lagging and registered behind it")
 }
